@@ -77,7 +77,8 @@ impl AsyncHandle {
         let flush_interval = state.config().write_mode.get_flush_interval();
         let line_ending = state.config().line_ending;
         let am_state = Arc::new(Mutex::new(state));
-        let a_pool = Arc::new(ArrayQueue::new(pool_capa));
+        // (an ArrayQueue with capacity 0 cannot be built)
+        let a_pool = Arc::new(ArrayQueue::new(pool_capa.max(1)));
 
         let (sender, mo_thread_handle) = super::state::start_async_fs_writer(
             Arc::clone(&am_state),
